@@ -11,7 +11,7 @@ extern int_t in_xsup[CAP+1], in_xsupend[CAP+1], in_supno[CAP+1], in_Lrowbeg[CAP+
 extern @T@ in_Lval[LUC], in_Bval[CAP*2];
 /* ghosts: g_s = the supernode the call counters watch (chosen by the solver, i.e. any); g_lastL/g_lastG/g_lastU = supernode of the
  * latest lower-triangular solve / update / upper-triangular solve; g_work/g_soln = the two work arrays of the routine */
-int_t g_s, g_lastL, g_lastG, g_lastU, g_work_len; int g_trsmL, g_trsmU, g_gemm, g_trsv, g_n_malloc, g_n_free;
+int_t g_s, g_r, g_c, g_lastL, g_lastG, g_lastU; int g_trsmL, g_trsmU, g_gemm, g_trsv, g_n_malloc, g_n_free;
 @T@ *g_work, *g_soln;
 #if @cplx@
 #define IS_ONE(p) ((p)->r == 1.0 && (p)->i == 0.0)
@@ -31,20 +31,11 @@ void verif_abort(char *msg) { __CPROVER_assume(0); }
 int sprintf(char *s, const char *f, ...) { return 0; }
 int printf(const char *f, ...) { return 0; }
 int xerbla_(char *s, int *i) { __CPROVER_assert(0, "xerbla_ not reached for legal arguments"); return 0; }
-/* allocators: the request is served by an object of EXACTLY the requested size (so cbmc's bounds checks on work[]/soln[] are exact);
- * the size is split into its possible constant values (<= 2*CAP) because cbmc runs out of memory on heap objects of symbolic size. */
-#define AL(k) if (n == (k)) p = ALLOC(k); else
-#define ALLOC_EXACT { AL(0) AL(1) AL(2) AL(3) AL(4) AL(5) AL(6) AL(7) AL(8) AL(9) AL(10) AL(11) AL(12) AL(13) AL(14) AL(15) AL(16) __CPROVER_assert(0, "allocation request within 0..2*CAP entries"); }
-@T@ *@T@Malloc(int_t n) { @T@ *p = NULL;
-#define ALLOC(k) malloc((k) * sizeof(@T@))
-  ALLOC_EXACT
-#undef ALLOC
-  __CPROVER_assume(p != NULL); g_n_malloc++; g_soln = p; return p; }
-@T@ *@T@Calloc(int_t n) { @T@ *p = NULL;
-#define ALLOC(k) calloc((k), sizeof(@T@))
-  ALLOC_EXACT
-#undef ALLOC
-  __CPROVER_assume(p != NULL); g_n_malloc++; g_work = p; g_work_len = n; return p; }
+/* allocators: legacy frame checking does not treat objects allocated inside a stub as fresh, so the harness allocates the two work
+ * arrays up front -- g_work: n*nrhs zeroed entries, g_soln: n entries, objects of EXACTLY that size, so cbmc's bounds checks on
+ * work[]/soln[] are exact -- and the allocators hand them out after checking that this is the size the routine asks for. */
+@T@ *@T@Calloc(int_t n) { __CPROVER_assert(g_n_malloc == 0 && n == in_L.nrow * in_B.ncol, "first allocation: work[] with n*nrhs zeroed entries"); g_n_malloc++; return g_work; }
+@T@ *@T@Malloc(int_t n) { __CPROVER_assert(g_n_malloc == 1 && n == in_L.nrow, "second allocation: soln[] with n entries"); g_n_malloc++; return g_soln; }
 void superlu_free(void *p) { __CPROVER_assert(p == (void *)g_work || p == (void *)g_soln, "only the routine's own work arrays are freed"); g_n_free++; free(p); }
 
 int @p@trsm_(char *side, char *uplo, char *transa, char *diag, int *m, int *n, @T@ *alpha, @T@ *a, int *lda, @T@ *b, int *ldb) {
@@ -89,7 +80,7 @@ int @p@gemm_(char *ta, char *tb, int *m, int *n, int *k, @T@ *alpha, @T@ *a, int
   __CPROVER_assert(in_Lnzbeg[f] >= 0 && *m >= 0 && in_Lnzbeg[f] + nsupc * nsupr <= LUC, "gemm: block [a, a+(k-1)*lda+m) inside the values of L");
   __CPROVER_assert(f + nsupc <= in_L.nrow && in_L.nrow <= *ldb && (*n) * (*ldb) <= CAP*2, "gemm: block rows f..f+k-1 of every right-hand side inside B");
   __CPROVER_assert(c == g_work && *ldc == in_L.nrow, "gemm: result == work array, leading dimension == order");
-  __CPROVER_assert(*m <= *ldc && (*n) * (*ldc) <= g_work_len, "gemm: result block m x nrhs inside the work array");
+  __CPROVER_assert(*m <= *ldc && (*n) * (*ldc) <= in_L.nrow * in_B.ncol, "gemm: result block m x nrhs inside the work array");
   __CPROVER_assert(s > g_lastG, "gemm: updates visit supernodes in increasing order");
   g_lastG = s; if (s == g_s) g_gemm++;
   HAVOC2(c, *ldc, *m, *n);
